@@ -338,22 +338,22 @@ func (cw *CountingWindow) getKey(data any) string {
 	v := reflect.ValueOf(data)
 	keyParts := make([]string, 0, len(keys))
 	for _, k := range keys {
-		var part string
+		part := nullKeyPart // NULL and missing values form their own group
 		switch v.Kind() {
 		case reflect.Map:
 			if v.Type().Key().Kind() == reflect.String {
 				mv := v.MapIndex(reflect.ValueOf(k))
-				if mv.IsValid() {
-					part = cast.ToString(mv.Interface())
+				if mv.IsValid() && mv.Interface() != nil {
+					part = escapeKeyPart(cast.ToString(mv.Interface()))
 				}
 			}
 		case reflect.Struct:
 			f := v.FieldByName(k)
 			if f.IsValid() {
-				part = cast.ToString(f.Interface())
+				part = escapeKeyPart(cast.ToString(f.Interface()))
 			}
 		}
 		keyParts = append(keyParts, part)
 	}
-	return strings.Join(keyParts, "|")
+	return strings.Join(keyParts, groupKeySeparator)
 }
